@@ -29,7 +29,8 @@ def spaces(tier, variant, seed):
     dense2 = al.PAT(2)["dense"]
     MAG = [1, 2, 3, 4, 6, M, B, B + 1, H, B * B - 1, 1 << 127, 3 << 64, dense2 | 1, 12 * M, 1 << 190]
     if not quick:
-        MAG += [al.PAT(3)["dense"], (1 << 192) - 1, 10 ** 19, (1 << 64) * (B + 1)]
+        MAG += [al.PAT(3)["dense"], (1 << 192) - 1, 10 ** 19, (1 << 64) * (B + 1), 5, 7, 12, 255, 1 << 32, (1 << 32) + 1, H + 1, H - 1, M - 1, B + 2, B * B, B * B + 1, (1 << 128) - 3,
+                al.PAT(4)["dense"] | 1, 6 * B, 1 << 65, (1 << 320) + 1]
     qs = {Fraction(0)}
     for n in MAG:
         for d in MAG:
